@@ -51,7 +51,7 @@ fn gen_validity(rng: &mut Rng, n: usize) -> Option<NullBuffer> {
 
 /// random array of `dt` with nulls at every level; lists may keep garbage behind nulls and offsets that
 /// neither start at 0 nor cover the whole child
-fn gen_array(rng: &mut Rng, dt: &DataType, n: usize, counter: &mut i64) -> ArrayRef {
+fn gen_array(rng: &mut Rng, dt: &DataType, n: usize, counter: &mut i64, plain: bool) -> ArrayRef {
     let nulls = gen_validity(rng, n);
     match dt {
         DataType::Int32 => Arc::new(Int32Array::new((0..n).map(|_| { *counter += 1; *counter as i32 }).collect::<Vec<_>>().into(), nulls)),
@@ -70,16 +70,16 @@ fn gen_array(rng: &mut Rng, dt: &DataType, n: usize, counter: &mut i64) -> Array
             Arc::new(LargeStringArray::new(a.offsets().clone(), a.values().clone(), nulls))
         }
         DataType::Struct(fields) => {
-            let cols: Vec<ArrayRef> = fields.iter().map(|f| gen_array(rng, f.data_type(), n, counter)).collect();
+            let cols: Vec<ArrayRef> = fields.iter().map(|f| gen_array(rng, f.data_type(), n, counter, plain)).collect();
             Arc::new(StructArray::new(fields.clone(), cols, nulls))
         }
         DataType::FixedSizeList(f, d) => {
-            let child = gen_array(rng, f.data_type(), n * *d as usize, counter);
+            let child = gen_array(rng, f.data_type(), n * *d as usize, counter, plain);
             Arc::new(FixedSizeListArray::new(f.clone(), *d, child, nulls))
         }
         DataType::List(f) | DataType::LargeList(f) => {
-            let lead = if rng.chance(1, 3) { rng.urange(1, 4) } else { 0 };
-            let trail = if rng.chance(1, 3) { rng.urange(1, 4) } else { 0 };
+            let lead = if !plain && rng.chance(1, 3) { rng.urange(1, 4) } else { 0 };
+            let trail = if !plain && rng.chance(1, 3) { rng.urange(1, 4) } else { 0 };
             let mut offs = vec![lead as i64];
             for i in 0..n {
                 let is_null = nulls.as_ref().map(|v| v.is_null(i)).unwrap_or(false);
@@ -87,7 +87,7 @@ fn gen_array(rng: &mut Rng, dt: &DataType, n: usize, counter: &mut i64) -> Array
                 offs.push(offs.last().unwrap() + len as i64);
             }
             let total = *offs.last().unwrap() as usize + trail;
-            let child = gen_array(rng, f.data_type(), total, counter);
+            let child = gen_array(rng, f.data_type(), total, counter, plain);
             if matches!(dt, DataType::List(_)) {
                 Arc::new(ListArray::new(f.clone(), OffsetBuffer::new(ScalarBuffer::from(offs.iter().map(|x| *x as i32).collect::<Vec<_>>())), child, nulls))
             } else {
@@ -334,8 +334,7 @@ fn check_struct_helpers(cx: &Ctx, rng: &mut Rng, arr: &ArrayRef) {
                 .build(),
             Err(e) => Err(e),
         };
-        if let Ok(d) = built {
-            let cpp = StructArray::from(d);
+        if let Some(cpp) = built.ok().and_then(|d| crate::quiet::catch(|| StructArray::from(d)).ok()) {
             let model: Vec<Cell> = want[off..off + len].to_vec();
             if let Some(r) = cx.guard("normalize_slicing", || cpp.normalize_slicing()) {
                 match r {
@@ -525,6 +524,20 @@ fn merge_model(l: &Cell, r: &Cell) -> Cell {
     }
 }
 
+fn has_duplicate_fields(c: &Cell) -> bool {
+    match c {
+        Cell::Struct(k) => {
+            let mut names: Vec<&String> = k.iter().map(|x| &x.0).collect();
+            names.sort();
+            let n = names.len();
+            names.dedup();
+            names.len() != n || k.iter().any(|x| has_duplicate_fields(&x.1))
+        }
+        Cell::List(v) => v.iter().any(has_duplicate_fields),
+        _ => false,
+    }
+}
+
 fn check_merge(cx: &Ctx, rng: &mut Rng, batch: &RecordBatch) {
     // build left / right from the batch: plain columns go to one side (some to both), structs are split
     let mut lf = vec![];
@@ -572,7 +585,7 @@ fn check_merge(cx: &Ctx, rng: &mut Rng, batch: &RecordBatch) {
                     let mut uniq = names.clone();
                     uniq.sort();
                     uniq.dedup();
-                    let cls = if uniq.len() != names.len() { "duplicate-column" } else if m.num_columns() != want.first().map(|c| if let Cell::Struct(k) = c { k.len() } else { 0 }).unwrap_or(m.num_columns()) { "columns" } else { "values" };
+                    let cls = if uniq.len() != names.len() || got.iter().any(has_duplicate_fields) { "duplicate-column" } else if m.num_columns() != want.first().map(|c| if let Cell::Struct(k) = c { k.len() } else { 0 }).unwrap_or(m.num_columns()) { "columns" } else { "values" };
                     let cls = if cls == "duplicate-column" { cls.to_string() } else { format!("{cls}{pre}") };
                     cx.bad(&format!("merge-{cls}"), "merge result differs from the name-based merge model", json!({"inputs": desc, "row": pos, "expected": want.get(pos).map(|c| c.render()), "got": got.get(pos).map(|c| c.render()), "output_columns": names}));
                 } else {
@@ -793,11 +806,13 @@ fn one_case(report: &Report, seed: u64, case: u64, corrupt: bool) {
     let mut counter = 0i64;
     let mut fields = vec![];
     let mut cols = vec![];
-    let extra = rng.urange(0, 5);
+    // half of the cases carry no physical offsets at all (no slicing, list offsets from 0)
+    let plain = rng.bool();
+    let extra = if plain { 0 } else { rng.urange(0, 5) };
     let (off, len) = if n + extra > 0 { let o = rng.urange(0, extra); (o, n.min(n + extra - o)) } else { (0, 0) };
     for i in 0..ncols {
         let dt = gen_type(&mut rng, 3);
-        let a = gen_array(&mut rng, &dt, n + extra, &mut counter).slice(off, len);
+        let a = gen_array(&mut rng, &dt, n + extra, &mut counter, plain).slice(off, len);
         fields.push(Field::new(format!("c{i}"), dt, true));
         cols.push(a);
     }
@@ -815,7 +830,7 @@ fn one_case(report: &Report, seed: u64, case: u64, corrupt: bool) {
         }
     };
     for c in &cols {
-        let c = maybe_slice(&mut rng, c.clone());
+        let c = if plain { c.clone() } else { maybe_slice(&mut rng, c.clone()) };
         step("deepcopy", &mut || check_deepcopy(&cx, &mut rng, &c, corrupt));
         step("list", &mut || check_list_helpers(&cx, &c, corrupt));
         step("struct", &mut || check_struct_helpers(&cx, &mut rng, &c));
